@@ -4,7 +4,7 @@ import itertools
 from hypothesis import strategies as st
 
 from vlib import rng, stats
-from vlib.runner import Violation, call
+from vlib.runner import Violation, call, clone_point
 
 PID = "C06"
 RULE = ("Hypothesis-generated loader inputs: manual dicts; empirical sequences with repeats; marginal loaders with "
@@ -195,7 +195,7 @@ def build(case):
             obj = call("dispatch", JointDegreeDistribution.load_joint_degree, p)
     if not isinstance(obj, cls):
         raise Violation("dispatch-class", f"{case['path']} built a {type(obj).__name__} for loader {ld}")
-    return obj, p
+    return clone_point(obj, case), p
 
 
 def close(a, b):
@@ -306,5 +306,16 @@ def check(case):
             want = law([True] * T)
             masses = list(want.values())
             classes.add("statistical")
+    # reading the distribution for sampling leaves it as it is (the manual loader still holds the given dictionary,
+    # the function loader still the function values): compare a copy taken before with the loader afterwards
+    if sum(jdd.values()) > 0:
+        before = dict(obj.jdd)
+        with rng.seeded(case["seed"] + 7):
+            call("sample", obj.sample_jds_from_jdd, 5)
+        after = dict(obj.jdd)
+        if set(after) != set(before) or any(after[k] != before[k] for k in before):
+            chg = [k for k in before if k not in after or after[k] != before[k]][:3]
+            raise Violation("changed-by-sampling", f"sampling from the loader changed the distribution it exposes, e.g. at {chg}: "
+                                                   f"{[before[k] for k in chg]} -> {[after.get(k) for k in chg]}")
     nt = len(masses) >= 2 and max(masses) - min(masses) > 1e-6
     return {"nontrivial": nt, "classes": sorted(classes)}
